@@ -8,6 +8,12 @@ From NP Require Import Model.Seqnum Model.Tcp.
 Import ListNotations.
 Open Scope Z_scope.
 
+(* compact notation used by the driver for payloads that are slices of its two deterministic byte
+   streams: wp = what the application writes, pp = what the scripted peer sends *)
+Definition zrange (n : Z) : list Z := map Z.of_nat (seq 0 (Z.to_nat n)).
+Definition wp (off n : Z) : list Z := map (fun i => ((off + i) * 7 + (off + i) / 251) mod 256) (zrange n).
+Definition pp (off n : Z) : list Z := map (fun i => ((off + i) * 13 + (off + i) / 256 + 1) mod 256) (zrange n).
+
 Record obs := mkObs { o_ev : event; o_st : tcp; o_frames : list frame; o_res : result }.
 
 (* cfg = [iss; irs; peer MSS option (0 none); MTU; ipv6?1:0] ; peer = the byte stream the scripted
